@@ -1046,6 +1046,101 @@ fn scenario_access(args: &Args, report: &mut Report) {
     let _ = std::fs::remove_dir_all(&tmp);
 }
 
+// ------------------------------------------------------------------------------------------------
+// connections over time (C17: every scrape / announce gets its reply on the connection that sent it; a connection's
+// peers disappear only when the connection is closed or dropped)
+// ------------------------------------------------------------------------------------------------
+
+/// The tracker closes a connection only when no announce / scrape reply has been sent to it for `max_connection_idle`
+/// seconds of its whole-second clock. Connections that get a reply every idle/2 seconds (mock clock moved around the
+/// request inside one cleaning interval, as in the http keepalive scenario) must survive every connection-cleaning pass,
+/// keep getting replies, and keep their peer entries.
+fn scenario_keepalive(args: &Args, report: &mut Report) {
+    let sw = args.usize("socket_workers", 2);
+    let ww = args.usize("swarm_workers", 2);
+    let idle = args.u64("idle", 4) as u32;
+    let interval = args.u64("interval", 3);
+    let rounds = args.usize("rounds", 4);
+    let mut t = 1000u32;
+    aquatic_common::verif::set_clock(Some(t));
+    let mut config = base_config(sw, ww);
+    config.cleaning.max_connection_idle = idle;
+    config.cleaning.connection_cleaning_interval = interval;
+    config.cleaning.max_peer_age = 1_000_000;
+    let tracker = match start(config) {
+        Ok(t) => t,
+        Err(e) => {
+            report.inconclusive(format!("tracker start: {}", e));
+            return;
+        }
+    };
+    let case = json!({"engine":"ws_live","scenario":"keepalive","config":format!("{}x{}", sw, ww),"max_connection_idle":idle,"connection_cleaning_interval":interval});
+    let wait_pass = |n: u64| vws::live::wait_all_threads("ws.connections_cleaned", n, sw, 60_000);
+    let h = hash_n(0x8b, 0, 1);
+    let n_conns = 2 * sw + 2;
+    let mut conns: Vec<WsConn> = Vec::new();
+    for _ in 0..n_conns {
+        match WsConn::open(tracker.addr_v4(), None) {
+            Ok(c) => conns.push(c),
+            Err(e) => {
+                report.inconclusive(format!("connect: {:?}", e));
+                return;
+            }
+        }
+    }
+    // each connection owns one peer of the torrent
+    for (k, c) in conns.iter_mut().enumerate() {
+        let replies = ask(c, &announce_json(&h, &pid_n(100 + k as u8), Some("started"), Some(1), None, None), 12_000);
+        report.eval();
+        if !replies.iter().any(|m| matches!(m, Msg::AnnounceReply { .. })) {
+            report.inconclusive(format!("set-up announce of connection {} not answered: {:?}", k, replies));
+            return;
+        }
+    }
+    let request_all = |report: &mut Report, conns: &mut Vec<WsConn>, t: u32, phase: &str| -> bool {
+        let mut ok = true;
+        for (k, c) in conns.iter_mut().enumerate() {
+            let got = if k % 2 == 0 { scrape_counts(c, &h).map(|x| x.0 + x.1) } else {
+                let replies = ask(c, &announce_json(&h, &pid_n(100 + k as u8), None, Some(1), None, None), 12_000);
+                replies.iter().find_map(|m| if let Msg::AnnounceReply { complete, incomplete, .. } = m { Some(*complete + *incomplete) } else { None })
+            };
+            report.eval();
+            if got != Some(n_conns as u64) {
+                ok = false;
+                report.violation(if got.is_none() { "ws.live.busy_connection_lost" } else { "ws.live.peer_of_open_connection_missing" }, "routing", format!("{} (clock {}): connection {} (a reply at most {} s ago, limit {} s): request answered with total {:?}, expected {} peers (one per open connection); closed={}", phase, t, k, idle / 2, idle, got, n_conns, c.closed), case.clone());
+            }
+        }
+        ok
+    };
+    if !wait_pass(1) {
+        report.inconclusive("no connection cleaning pass observed (ws.connections_cleaned)");
+        return;
+    }
+    if !request_all(report, &mut conns, t, "first round") {
+        return;
+    }
+    let half = idle / 2;
+    for round in 0..rounds {
+        t += half;
+        aquatic_common::verif::set_clock(Some(t));
+        if !request_all(report, &mut conns, t, &format!("round {} mid-interval request", round)) {
+            return;
+        }
+        t += idle - half;
+        aquatic_common::verif::set_clock(Some(t));
+        if !wait_pass(1) {
+            report.inconclusive("no connection cleaning pass observed (ws.connections_cleaned)");
+            return;
+        }
+        if !request_all(report, &mut conns, t, &format!("round {} after the cleaning pass", round)) {
+            return;
+        }
+        report.nontrivial(vcore::fnv(format!("keepalive/{}x{}/{}", sw, ww, round).as_bytes()));
+        report.count("keepalive.rounds_survived");
+    }
+    report.sample(json!({"case": case, "connections": n_conns, "rounds": rounds}));
+}
+
 fn scenario_expiry(args: &Args, report: &mut Report) {
     let sw = args.usize("socket_workers", 1);
     let ww = args.usize("swarm_workers", 2);
@@ -1246,6 +1341,7 @@ fn main() {
         "routing" => scenario_routing(&args, &mut report),
         "address" => scenario_address(&args, &mut report),
         "access" => scenario_access(&args, &mut report),
+        "keepalive" => scenario_keepalive(&args, &mut report),
         "expiry" => scenario_expiry(&args, &mut report),
         "corpus" => scenario_corpus(&args, &mut report),
         other => report.inconclusive(format!("unknown scenario {}", other)),
